@@ -27,6 +27,11 @@ def run(ctx, replay):
         walcommon.run_wal(ctx, ["--histories", 0, "--boundary", 4], "boundary")
         # the roll-over to the next data page fails (page acquisition fault), later appends, roll-over, reopen
         walcommon.run_wal(ctx, ["--histories", 0, "--rollfail", 2], "rollfail")
+    # leg R: API-call histories chosen by TLC from the store-level model, executed against the real queue; `small`: one
+    # byte per length unit, crash images after the stores of the part before the first close; `roll`: 32 MiB per unit,
+    # the real 128 MiB data pages roll over exactly where the model's 4-unit pages do
+    walcommon.run_generated(ctx, "WALQueueGen_small.cfg", 400 if thorough else 60, 300, 1, "small", maximages=8)
+    walcommon.run_generated(ctx, "WALQueueGen_roll.cfg", 40 if thorough else 5, 200, 32 * 1024 * 1024, "roll", maximages=3, seed_shift=1)
     vcore.corrupt_selftest(ctx, "WALQueueTrace", "WALQueueTrace.cfg", tr, walcommon.mutate_store, "data store offset +1")
     vcore.corrupt_selftest(ctx, "WALQueueTrace", "WALQueueTrace.cfg", tr, walcommon.mutate_proj, "a message reads back other bytes")
     vcore.corrupt_selftest(ctx, "WALQueueTrace", "WALQueueTrace.cfg", tr, walcommon.drop_store, "meta appended store dropped")
